@@ -38,8 +38,9 @@ fn fwd(op: &Op, _ctx: &dyn Context, operands: &mut dyn CoordinateSet) -> usize {
         // The three look-ups behind one deflection must be served by the same grid:
         // the difference between the heights of two different geoid models (or of a
         // geoid model and the null grid) says nothing about the slope of any of them.
-        // So we use the first grid able to answer all three (then the first one
-        // able to do so within its half-cell margin), rather than `grids_at`
+        // So the grid is selected by the point itself (as `grids_at` does: the first grid
+        // containing it, then the first one having it within its half-cell margin), and
+        // the auxiliary points are looked up in that same grid, margin included
         let north = Coor4D([lon, lat + dlat, coord[2], coord[3]]);
         let east = Coor4D([lon + dlon, lat, coord[2], coord[3]]);
         let mut heights = None;
@@ -47,8 +48,8 @@ fn fwd(op: &Op, _ctx: &dyn Context, operands: &mut dyn CoordinateSet) -> usize {
             for grid in grids.iter() {
                 if let (Some(o), Some(n), Some(e)) = (
                     grid.at(&coord, margin),
-                    grid.at(&north, margin),
-                    grid.at(&east, margin),
+                    grid.at(&north, 0.5),
+                    grid.at(&east, 0.5),
                 ) {
                     heights = Some((o, n, e));
                     break 'grids;
